@@ -1,6 +1,7 @@
 package main
 
 import (
+	"bytes"
 	"encoding/hex"
 	"fmt"
 	"io"
@@ -120,6 +121,11 @@ type TConn struct {
 	gfail  int    // -1 = none
 	gkind  string // "error" | "timeout" | "eof"
 	gfired bool
+	// nRead: number of Read calls that reached the transport
+	nRead int
+	// slow: Write dawdles and then checks that nobody changed the bytes it was given (mutated counts)
+	slow    bool
+	mutated int
 	// armedFor: how far in the future each non-zero SetDeadline was
 	armedFor []time.Duration
 	// replies computed from what has been written so far: each time a Read finds no chunks, the next
@@ -178,6 +184,13 @@ func (c *TConn) Write(p []byte) (int, error) {
 	c.calls++
 	f, ok := c.faults[k]
 	cp := append([]byte(nil), p...)
+	if c.slow {
+		// a transport takes its time; until Write returns the bytes are its own
+		time.Sleep(150 * time.Microsecond)
+		if !bytes.Equal(cp, p) {
+			c.mutated++
+		}
+	}
 	c.checkWD(len(p))
 	if c.faultFired {
 		c.writesAfterFault++
@@ -263,6 +276,7 @@ func deadlineClass(t time.Time) string {
 }
 
 func (c *TConn) Read(p []byte) (int, error) {
+	c.nRead++
 	if err := c.gop("R"); err != nil {
 		return 0, err
 	}
@@ -335,6 +349,8 @@ func (c *TConn) RemoteAddr() net.Addr { return tAddr{} }
 type keySource struct {
 	keys []byte
 	pos  int
+	// draws: every 4-byte key handed out, in order
+	draws [][4]byte
 }
 
 func (k *keySource) Read(p []byte) (int, error) {
@@ -347,6 +363,9 @@ func (k *keySource) Read(p []byte) (int, error) {
 	for i := range p {
 		p[i] = k.keys[k.pos%len(k.keys)]
 		k.pos++
+	}
+	if len(p) == 4 {
+		k.draws = append(k.draws, [4]byte{p[0], p[1], p[2], p[3]})
 	}
 	return len(p), nil
 }
